@@ -278,8 +278,10 @@ static void run_start(const vh::Case &cs) {
     bool ok = !cs.ops.empty() && cs.ops.size() <= 4;
     for (auto &op : cs.ops) {
         if (op.size() < 2 || op[0] != 1) ok = false;
-        for (size_t i = 1; i < op.size(); i++)
+        for (size_t i = 1; i < op.size(); i++) {
             if (op[i] < 0 || op[i] > 400) ok = false;
+            if (i > 1 && op[i] < op[i - 1]) ok = false;   // time points of one coroutine must not go backwards
+        }
     }
     if (!ok) {
         for (size_t i = 0; i < cs.ops.size(); i++) vh::print_obs({1});
